@@ -29,7 +29,7 @@ func init() {
 	for _, w := range c13Workloads {
 		floor = append(floor, "workload."+w)
 	}
-	floor = append(floor, "separate.builtins", "par.bg-reads-derived-row", "shared.where", "shared.subquery", "shared.exists", "shared.in-subquery", "shared.order", "shared.group", "shared.distinct", "shared.marker-between", "shared.cte-wrapped", "shared.cte-path", "shared.join-unaliased", "par.join", "par.join-fail", "par.async", "par.spinasync", "par.await-async", "par.async-deep", "par.join-like", "par.join-stateful", "par.join-panic", "workload.cold-start", "reexec.results-reused", "cached.open-range", "reader.fn-spelling")
+	floor = append(floor, "separate.builtins", "separate.two-dialects", "par.bg-reads-derived-row", "shared.where", "shared.subquery", "shared.exists", "shared.in-subquery", "shared.order", "shared.group", "shared.distinct", "shared.marker-between", "shared.cte-wrapped", "shared.cte-path", "shared.join-unaliased", "par.join", "par.join-fail", "par.async", "par.spinasync", "par.await-async", "par.async-deep", "par.join-like", "par.join-stateful", "par.join-panic", "workload.cold-start", "reexec.results-reused", "cached.open-range", "reader.fn-spelling")
 	fw.Register(&fw.Prop{
 		ID:    "C13",
 		Title: "Concurrent queries are free of data races, crashes and cross-talk",
@@ -257,6 +257,32 @@ func c13RunW(c *fw.Case, w string) {
 					feats = append(feats, "cached.open-range")
 					continue
 				}
+				if c.Chance(0.15) {
+					// one text under two option sets at once: a double-quoted word is a column
+					// under PostgresEscapingDialect and a string constant without it
+					sql := gen.Pick(c.R, []string{"SELECT rid, \"s1\" AS v FROM t1", "SELECT rid, \"s1\" AS v, \"n1\" AS w FROM t1"})
+					pg := (g+i)%2 == 0
+					doc := d.fresh()
+					var want []any
+					for _, r := range d.t.Rows {
+						row := map[string]any{"rid": r["rid"], "v": "s1"}
+						if pg {
+							row["v"] = r["s1"]
+						}
+						if strings.Contains(sql, "AS w") {
+							row["w"] = "n1"
+							if pg {
+								row["w"] = r["n1"]
+							}
+						}
+						want = append(want, row)
+					}
+					j := &c13Job{doc: doc, sql: sql, refWant: true, want: val.Canon(normEmpty(want)), feat: "separate.two-dialects"}
+					j.opts.PG = pg
+					jobs[g] = append(jobs[g], j)
+					feats = append(feats, "separate.two-dialects")
+					continue
+				}
 				if c.Chance(0.2) {
 					// built-in functions that serialise their argument (HASH, ENCODE)
 					// over many rows of documents that share nothing: whatever
@@ -323,7 +349,8 @@ func c13RunW(c *fw.Case, w string) {
 				case 8:
 					// an ON expression that touches state of the query: a ONCE memo, pending
 					// work of a subquery, a CTE of the scope that has not been read yet
-					jn := gen.Pick(c.R, []string{"PARALLEL JOIN", "PARALLEL LEFT JOIN", "PARALLEL STRAIGHT_JOIN"})
+					// (also spelled as a hash join: an ON that is no conjunction of equalities falls back to the nested loop)
+					jn := gen.Pick(c.R, []string{"PARALLEL JOIN", "PARALLEL LEFT JOIN", "PARALLEL STRAIGHT_JOIN", "PARALLEL HASH_JOIN", "PARALLEL LEFT HASH_JOIN", "PARALLEL RIGHT HASH_JOIN"})
 					on := gen.Pick(c.R, []string{"x.n1 = y.un1 AND ONCE.VFONCE(true, 1, 1)", "x.n1 >= y.un1 AND EXISTS (SELECT e FROM `x.arr` WHERE e >= 0)", "x.n1 = y.un1 OR EXISTS (SELECT 1 FROM `<-.c9`)",
 						"x.n1 >= y.un1 AND x.n1 IN (SELECT un1 FROM `<-u1`)", "x.s1 = y.us1 OR VF(true, 1, 2)",
 						// a call that is followed by plain columns among the operands of one expression
